@@ -33,5 +33,7 @@ func init() {
 		directed{"in_receiver", "btc", []string{"request", "otb", "send=fail:timeout"}},
 		directed{"out_sender", "btc", []string{"height=fail:start"}},
 		directed{"in_receiver", "lbtc", []string{"height=fail:request"}},
+		directed{"out_sender", "lbtc", []string{"height=fail:start"}},
+		directed{"in_receiver", "btc", []string{"height=fail:request"}},
 	)
 }
